@@ -27,7 +27,13 @@
 (* (PutNull: "schedule": null means the empty schedule of the default      *)
 (* zone), or be restarted from a configuration document that is decoded,   *)
 (* as YAML or as JSON, ON TOP OF the default configuration whose schedule   *)
-(* is the empty one (Load).  Holders are independent: a request to one     *)
+(* is the empty one (Load).  The configuration document may also carry NO *)
+(* schedule at all -- `schedule: null`, `schedule: ~`, `schedule:` left    *)
+(* blank, the key absent, or the whole blocked-services section blank      *)
+(* (LoadNone): a schedule that is not there has no range on any day, so    *)
+(* the holder then has the empty schedule in effect, exactly as after      *)
+(* PutNull: the pause holds at no instant and the services stay blocked.   *)
+(* Holders are independent: a request to one                               *)
 (* never changes what the other has in effect, and the empty schedule      *)
 (* holds at no instant and has no day when written out -- whatever other   *)
 (* schedules exist or existed.                                             *)
@@ -140,7 +146,7 @@ Init == /\ live = [h \in Holders |-> Boot]
 Canon == \/ op.act = "boot"
          \/ op.act = "put" /\ op.out = "ok"
 Emit(h, act, doc, o) ==
-    Canon => PrintT(<<"@@V", ToJson([k |-> "edge", h |-> h, act |-> act, src |-> LiveJ(live), doc |-> DocJ(doc),
+    Canon => PrintT(<<"@@V", ToJson([k |-> "edge", h |-> h, act |-> act, form |-> "", src |-> LiveJ(live), doc |-> DocJ(doc),
                             out |-> o, dst |-> LiveJ(live')])>>)
 
 \* A document offered to holder h, through the update API (act = "put") or as
@@ -161,6 +167,16 @@ PutFull == live["c"] = Boot /\ \E doc \in Docs : Offer("g", "put", doc)
 PutSmall == \E h \in Holders, doc \in SmallDocs : Offer(h, "put", doc)
 Load     == \E h \in Holders, f \in {"yaml", "json"}, doc \in SmallDocs : Offer(h, f, doc)
 
+\* A configuration document without a schedule, in each of its spellings.
+NoneForms == {"null", "tilde", "blank", "absent", "section-blank"}
+LoadNone == \E h \in Holders, f \in NoneForms :
+              /\ live' = [live EXCEPT ![h] = Empty]
+              /\ last' = [last EXCEPT ![h] = Empty]
+              /\ op' = [h |-> h, act |-> "yamlnone", out |-> "ok"]
+              /\ Canon => PrintT(<<"@@V", ToJson([k |-> "edge", h |-> h, act |-> "yamlnone", form |-> f,
+                                                  src |-> LiveJ(live), doc |-> DocJ(Empty), out |-> "ok",
+                                                  dst |-> LiveJ(live')])>>)
+
 \* "schedule": null -- the holder has the empty schedule afterwards.
 PutNull == \E h \in Holders :
               /\ live' = [live EXCEPT ![h] = Empty]
@@ -168,7 +184,7 @@ PutNull == \E h \in Holders :
               /\ op' = [h |-> h, act |-> "null", out |-> "ok"]
               /\ Emit(h, "null", Empty, "ok")
 
-Next == PutFull \/ PutSmall \/ Load \/ PutNull
+Next == PutFull \/ PutSmall \/ Load \/ PutNull \/ LoadNone
 Spec == Init /\ [][Next]_vars
 
 \* -------------------------------------------- properties of the statement
